@@ -311,14 +311,39 @@ def _error_records(ck, repo):
     ok = isinstance(st, ast.Assign) and isinstance(st.value, ast.IfExp) and unparse(st.value.test) == "is_coercible_exception(exception)" \
         and unparse(st.value.body) == "exception"
     ck.ob("located_error keeps library errors as they are (user message and extensions preserved)", ok, le, st, construct="located:keep-coercible")
-    parts = [c for c in lv.calls("partial") if c.args and unparse(c.args[0]).endswith(".coerce_value")]
-    kws = sorted(k for c in parts for k in kwargs(c))
+    # what is bound into the error's coerce_value: keywords of partial(<its coerce_value>, k=v) and, for partial(cv, **d), the entries of d
+    single = {}
+    for n in walk_no_nested(le.node):
+        if isinstance(n, ast.Assign) and len(n.targets) == 1 and isinstance(n.targets[0], ast.Name):
+            single.setdefault(n.targets[0].id, []).append(n.value)
+
+    def _res(e):
+        t = unparse(e)
+        if isinstance(e, ast.Name) and len(single.get(e.id, [])) == 1:
+            return unparse(single[e.id][0])
+        return t
+
+    parts = [c for c in lv.calls("partial") if c.args and _res(c.args[0]).endswith(".coerce_value")]
+    bound = []
+    for c in parts:
+        for k in c.keywords:
+            if k.arg is not None:
+                bound.append((k.arg, unparse(k.value), c))
+            elif isinstance(k.value, ast.Name):
+                d = k.value.id
+                for n in walk_no_nested(le.node):
+                    if isinstance(n, ast.Assign) and isinstance(n.targets[0], ast.Subscript) and unparse(n.targets[0].value) == d and isinstance(n.targets[0].slice, ast.Constant):
+                        bound.append((n.targets[0].slice.value, unparse(n.value), n))
+                    if isinstance(n, ast.Assign) and unparse(n.targets[0]) == d and isinstance(n.value, ast.Dict):
+                        for kk, vv_ in zip(n.value.keys, n.value.values):
+                            if isinstance(kk, ast.Constant):
+                                bound.append((kk.value, unparse(vv_), n))
+    kws = sorted(k for k, _, _ in bound)
     ck.ob("located_error attaches path and locations to errors that lack them", kws == ["locations", "path"], le, parts[0] if parts else le.node,
           construct="located:attach", detail=str(kws))
-    for c in parts:
-        k = list(kwargs(c))[0]
+    for k, v, c in bound:
         want = lp[2] if k == "path" else f"[node.location for node in {lp[1]}]"
-        ck.ob(f"located_error: attached {k} comes from the failing field", unparse(kwargs(c)[k]) == want, le, c, construct=f"located:attach:{k}")
+        ck.ob(f"located_error: attached {k} comes from the failing field", v == want, le, c, construct=f"located:attach:{k}")
     _attach_table(ck, le, lv, parts)
     ap = [c for c in lv.calls("append")]
     rets = lv.returns()
@@ -381,7 +406,27 @@ def _error_records(ck, repo):
         ck.ob(f"located_error reads `graphql_error.{attr}` only after hasattr said it exists (user exceptions need only coerce_value)", ok, le, loads[0] if loads else le.node,
               construct=f"located:guarded-read:{attr}")
     kwl = [n for n in ast.walk(le.node) if isinstance(n, ast.Attribute) and n.attr == "keywords" and isinstance(n.ctx, ast.Load)]
-    ok = bool(kwl) and all(("is_partial", "T") in lv.conditions(n) for n in kwl)
+
+    def _is_partial_guard(n):
+        obj = _res(n.value)
+        tests = {f"isinstance({obj}, partial)", f"isinstance({unparse(n.value)}, partial)"}
+        for t, o in lv.conditions(n):
+            if o != "T":
+                continue
+            if t in tests:
+                return True
+            # a flag holding the isinstance test (and set to True once a partial has been installed)
+            vals = {unparse(v) for v in single.get(t, [])} if t.isidentifier() else set()
+            if t.isidentifier() and not vals:
+                vals = {unparse(x.value) for x in walk_no_nested(le.node) if isinstance(x, ast.Assign) and unparse(x.targets[0]) == t}
+            if vals and vals <= tests | {"True"} and vals & tests:
+                return True
+        for a in lv.ancestors(n):
+            if isinstance(a, ast.IfExp) and unparse(a.test) in tests and any(x is n for x in ast.walk(a.body)):
+                return True
+        return False
+
+    ok = bool(kwl) and all(_is_partial_guard(n) for n in kwl)
     ck.ob("located_error reads `.keywords` only of a partial", ok, le, kwl[0] if kwl else le.node, construct="located:guarded-read:keywords")
     from .c18 import error_record_shape
     error_record_shape(ck, repo)
